@@ -758,20 +758,20 @@ PROBES = {
 NT_SUBSET = "the node list is not the identity and an edge, mutation, site or individual is dropped"
 NT_UNION = "Y is non-empty and at least one of S, X is non-empty (something is added to a non-empty self)"
 SUBCHECKS = [
-    SubCheck("C14.subset", run_subset, strategy=subset_case, quick=3000, thorough=90000, rule=NT_SUBSET,
+    SubCheck("C14.subset", run_subset, strategy=subset_case, quick=10000, thorough=300000, rule=NT_SUBSET,
              floors={"nodes:perm": 0.05, "nodes:sublist": 0.1, "nodes:subset_sorted": 0.03, "nodes:empty": 0.03,
                      "nodes:single": 0.03, "nodes:identity": 0.1, "drop_edge": 0.2, "drop_mut": 0.12,
                      "drop_site": 0.1, "drop_ind": 0.1, "drop_pop": 0.08, "parent_cut": 0.015,
                      "ind_parent_cut": 0.025, "remove_unreferenced=F": 0.1, "reorder_populations=F": 0.1,
                      "via:tables": 0.15, "multi_tree": 0.2, "mutations": 0.3}),
-    SubCheck("C14.union", run_union, strategy=cover_case, quick=3000, thorough=90000, rule=NT_UNION,
+    SubCheck("C14.union", run_union, strategy=cover_case, quick=12000, thorough=360000, rule=NT_UNION,
              classify=classify,
              floors={"cover:S,X,Y non-empty": 0.12, "cover:mutations on S,X,Y": 0.04, "inverse_law": 0.15,
                      "refused": 0.04, "edited": 0.06, "new_individuals": 0.05, "new_populations": 0.03,
                      "site_deduplicated": 0.08, "check_shared_equality=F": 0.08, "add_populations=F": 0.2,
                      "S:separator": 0.2, "S:ancestor_closed": 0.04, "S:arbitrary": 0.02, "via:tables": 0.15,
                      "known_mut_times": 0.1}),
-    SubCheck("C14.refusals", run_refusal, strategy=refusal_case, quick=400, thorough=8000,
+    SubCheck("C14.refusals", run_refusal, strategy=refusal_case, quick=800, thorough=16000,
              rule="every case: out-of-range node ids, migrations, or an invalid node mapping must raise",
              floors={"kind:subset_oob": 0.03, "kind:subset_migrations": 0.03, "kind:union_bad_map": 0.02,
                      "kind:union_migrations_other": 0.03}),
